@@ -84,7 +84,18 @@ def _value_expr(func_node, stmts):
     return _inline(stmts[-1].value, hdefs, depth=4)
 
 
-def _inline(test, defs: Defs, depth=6, _seen=None, module=None):
+_COLLECTION_CTORS = {"set", "list", "dict", "frozenset", "sorted", "defaultdict", "OrderedDict"}
+
+
+def _is_collection_value(v):
+    if isinstance(v, (ast.ListComp, ast.SetComp, ast.DictComp, ast.List, ast.Set, ast.Dict)):
+        return True
+    if isinstance(v, ast.Call) and isinstance(v.func, ast.Name) and v.func.id in _COLLECTION_CTORS:
+        return True
+    return False
+
+
+def _inline(test, defs: Defs, depth=6, _seen=None, module=None, keep_collections=False):
     """Copy of ``test`` with locals that have exactly one definition replaced by it, and - when ``module`` is
     given - calls of same-module private single-``return <expr>`` helpers replaced by that expression (formal
     parameters substituted by the actual arguments)."""
@@ -99,8 +110,13 @@ def _inline(test, defs: Defs, depth=6, _seen=None, module=None):
                 # changing what a tested local is computed from does).  Loop / with / comprehension targets, unpacked,
                 # augmented or multiply-bound locals and parameters stay opaque.
                 v = defs.plain_single_def(n.id)
+                if keep_collections and v is not None and _is_collection_value(v):
+                    # a local that holds a computed collection (display, comprehension, set()/list()/dict()/tuple()/sorted()
+                    # of something) stays a name: a guard such as ``if not wanted:`` is about that collection, and whether it
+                    # was filled by a loop or by a comprehension is not part of the condition
+                    return n
                 if v is not None and depth > 0 and not isinstance(v, ast.Lambda):
-                    return _inline(v, defs, depth - 1, _seen | {n.id}, module)
+                    return _inline(v, defs, depth - 1, _seen | {n.id}, module, keep_collections)
             return n
 
         def visit_Call(self, n):
@@ -352,6 +368,25 @@ def _chain_items(cfg, s, defs, local_names, module, rewrite=None):
     return own, ctx, texts
 
 
+def _ifexp_arms(ret: ast.Return, defs, depth=3):
+    """[(value, [(test, polarity), ...])] for ``return <conditional expression>`` (nested conditionals flattened; a
+    returned local that is bound once to a conditional expression is looked through); None when the value is not one."""
+    v = ret.value
+    if isinstance(v, ast.Name):
+        d = defs.plain_single_def(v.id)
+        if isinstance(d, ast.IfExp):
+            v = d
+    if not isinstance(v, ast.IfExp):
+        return None
+
+    def walk(e, conds, depth):
+        if isinstance(e, ast.IfExp) and depth > 0:
+            return walk(e.body, conds + [(e.test, True)], depth - 1) + walk(e.orelse, conds + [(e.test, False)], depth - 1)
+        return [(e, conds)]
+
+    return walk(v, [], depth)
+
+
 def guard_instances(f: FuncInfo, kinds=("raise", "return None", "return", "continue"), extra=None, follow_helpers=True):
     """[Guard] for the exits of ``f`` (and, with ``extra``, for other statements: ``extra(stmt) -> bool``).  With
     ``follow_helpers`` the ``raise`` exits of same-module private functions that ``f`` calls count as exits of ``f``,
@@ -372,6 +407,24 @@ def guard_instances(f: FuncInfo, kinds=("raise", "return None", "return", "conti
         else:
             continue
         own, ctx, texts = _chain_items(cfg, s, defs, local_names, module)
+        arms = _ifexp_arms(s, defs) if isinstance(s, ast.Return) else None
+        if arms:
+            # ``return a if c else b`` is ``if c: return a`` / ``else: return b``: one exit per arm, under the arm's condition
+            for value, conds in arms:
+                arm_stmt = ast.copy_location(ast.Return(value=value), s)
+                a_ek = exit_kind(arm_stmt, module)
+                if not any(a_ek.startswith(k) for k in kinds):
+                    continue
+                a_own, a_texts = list(own), list(texts)
+                for t, pol in conds:
+                    it = _inline(t, defs, module=module)
+                    for lit in _conjuncts(_nnf(it, pol)):
+                        a_own.append(_item(lit, local_names))
+                    for lit in _conjuncts(_nnf(t, pol)):
+                        ast.fix_missing_locations(lit)
+                        a_texts.append(unparse(lit))
+                out.append(Guard(s, a_ek, a_own, ctx, " AND ".join(f"({x})" for x in sorted(a_texts)) if a_texts else "<unconditional>"))
+            continue
         out.append(Guard(s, ek, own, ctx, " AND ".join(f"({x})" for x in sorted(texts)) if texts else "<unconditional>"))
     if follow_helpers and any(k.startswith("raise") for k in kinds):
         seen = {f.fq}
